@@ -1,11 +1,12 @@
-\* as-found variant against the intended-only invariants (run with -continue): every one of them must be violated -
-\* these are the divergences between the code and what a caller relies on (each is confirmed on the real code by stage B)
+\* as-found variant against the intended-only invariants, run with -continue (TLC reports every violated invariant):
+\* every one of them must be violated - these are the divergences between the code and what a caller relies on (each is
+\* confirmed on the real code by stage B)
 SPECIFICATION Spec
 CONSTANTS
   Variant = "asfound"
-  Configs <- CfgMC
-  ApiOutcomes = {"neterr", "s404", "s500", "garbage", "R0", "R1", "R2", "RT", "RB", "RE"}
-  DnsOutcomes = {"servfail", "garbage", "nosuccess", "nobidi", "R0", "R1", "R2", "RT", "RB", "RE"}
+  Configs <- CfgGenA
+  ApiOutcomes = {"s500", "R0", "RB", "RE"}
+  DnsOutcomes = {"nosuccess", "nobidi", "R2", "RB"}
 VIEW view
 INVARIANTS I_NoWireAfterCancel I_NoFallbackAfterCancel I_NoInflightAfterCancel I_RegReflectsAccepted
            I_ErrorIndicationRespected I_AcceptedHasAddr I_FailureIsRegFailed
